@@ -73,7 +73,7 @@ OUT_FORMATS = ("jsonschema", "openapi")
 CLAUSES = ("valid", "ref-resolves", "names", "required", "constraints", "enum", "default", "encode-validates", "own-parser",
            "roundtrip", "rejects-invalid")
 NQUICK = 30
-NSIM = 4500         # thorough: seeded tlc -simulate draws from the large catalogue (EmitSchemaMC!BigAt)
+NSIM = 3000         # thorough: seeded tlc -simulate draws from the large catalogue (EmitSchemaMC!BigAt)
 MUST_LABELS = {"BreakBound": "constraints", "NonMember": "enum", "DropRequired": "required", "Probe": "constraints"}
 MAX_DISAGREE = 0.03
 
@@ -276,13 +276,52 @@ def _sem_gen_one(ctx, cwd, job, timeout):
     return json.loads(p.stdout.decode().splitlines()[0])
 
 
+def generate_irroute(ctx, batch, ids):
+    """The IR-BUILT route: the schema term itself is handed to the real jsonschema / openapi languages as cog IR (worker
+    c12-emit-ir: compiler passes + Jennies(...).GenerateFS), no input parser in between. Units `i<id>` (input format `ir`), no Go."""
+    gen = batch.gen_dir
+    jobs = []
+    for sid in ids:
+        entry = batch.cat[sid]
+        if entry.get("inter") or any("." in d["name"] for d in entry["schema"]["defs"]):
+            continue
+        pkg = "i%04d" % sid
+        pmap = {f["pkg"]: pkg + f["pkg"] for f in entry["foreign"]}
+        term = {"defs": entry["schema"]["defs"], "root": entry["schema"]["root"], "foreign": entry["foreign"]}
+        u = {"id": sid, "fmt": "ir", "pkg": pkg, "xpkgs": pmap, "status": "pending", "type": pkg + "." + entry["schema"]["root"],
+             "compact": compact_of(sid)}
+        batch.units[pkg] = u
+        try:
+            ir = ec.term_to_ir(term, pkg, pmap)
+        except ec.Unsupported as e:
+            u["status"], u["why"] = "not_expressible", "ir: %s" % e
+            continue
+        u["text"] = json.dumps(ir)
+        jobs.append({"id": pkg, "root": gen, "compact": u["compact"], "ir": ir})
+    if not jobs:
+        return
+    d = ctx.sub("irroute")
+    inp, outp = os.path.join(d, "in.ndjson"), os.path.join(d, "out.ndjson")
+    open(inp, "w").write("".join(json.dumps(j) + "\n" for j in jobs))
+    ctx.run_worker(["c12-emit-ir"], stdin_path=inp, stdout_path=outp, timeout=900, cwd=gen)
+    for line in open(outp):
+        r = json.loads(line)
+        u = batch.units[r["id"]]
+        if r.get("panic"):
+            u["status"], u["why"] = "codegen_panic", r["panic"]
+        elif not r.get("ok"):
+            u["status"], u["why"] = "codegen_error", r.get("err", "")
+        else:
+            u["status"], u["files"], u["ir"], u["ir_openapi_same"] = "schema_only", r["files"], r["ir"], True
+
+
 def rerun_schema_only(ctx, batch):
     """Units whose pipeline failed as a whole (one jenny's error loses every output): run the pipeline again with the schema
     languages only, so that the emitted documents are still judged (the failure itself belongs to C02 / C04)."""
     gen = batch.gen_dir
     jobs = []
     for u in batch.units.values():
-        if u["status"] != "codegen_error":
+        if u["status"] != "codegen_error" or u["fmt"] == "ir":
             continue
         yp = os.path.join(gen, "_in", u["pkg"] + ".yaml")
         if not os.path.exists(yp):
@@ -315,7 +354,7 @@ def dump_ir(ctx, batch):
     """The IR the schema jennies really consumed, per unit (worker c12-ir on the unit's own pipeline file)."""
     d = ctx.sub("ir")
     inp, out = os.path.join(d, "in.ndjson"), os.path.join(d, "out.ndjson")
-    units = [u for u in batch.units.values() if u["status"] not in ("not_expressible", "pending", "codegen_timeout")]
+    units = [u for u in batch.units.values() if u["status"] not in ("not_expressible", "pending", "codegen_timeout") and u["fmt"] != "ir"]
     with open(inp, "w") as f:
         for u in units:
             f.write(json.dumps({"id": u["pkg"], "yaml": os.path.join(batch.gen_dir, "_in", u["pkg"] + ".yaml")}) + "\n")
@@ -533,7 +572,7 @@ def run(ctx):
     batch.ids = plain
     formats = sc.FORMATS
     if replay and replay["replay"].get("input_format"):
-        formats = (replay["replay"]["input_format"],)
+        formats = () if replay["replay"]["input_format"] == "ir" else (replay["replay"]["input_format"],)
     # the output options vary per package: sc.generate asks sc.pipeline_yaml for every pipeline file
     orig_render = sc.render
     sc.render = lambda schema, fmt, package: render_with_intersections(schema, fmt, package, orig_render)
@@ -549,6 +588,8 @@ def run(ctx):
     generate_xpkg(ctx, batch, xids)
     batch.ids = ids
     rerun_schema_only(ctx, batch)
+    if not replay or replay["replay"].get("input_format") == "ir":
+        generate_irroute(ctx, batch, [i for i in ids if cat[i]["pos"] in ("fixed", "c12", "c12t")])
     sc.build(ctx, batch)
     dump_ir(ctx, batch)
     status0 = collections.Counter(u["status"] for u in batch.units.values())
